@@ -376,8 +376,13 @@ impl<T: CountMinValue> CountMinSketch<T> {
         }
 
         let entries = entries_for_config_checked(num_hashes, num_buckets)?;
+        let is_empty = (flags & FLAGS_IS_EMPTY) != 0;
+        // a non-empty image carries the total weight and every counter
+        if !is_empty && (entries as u128 + 1) * (LONG_SIZE_BYTES as u128) > cursor.remaining() as u128 {
+            return Err(Error::insufficient_data("counts"));
+        }
         let mut sketch = Self::make(num_hashes, num_buckets, seed, entries);
-        if (flags & FLAGS_IS_EMPTY) != 0 {
+        if is_empty {
             return Ok(sketch);
         }
 
